@@ -155,6 +155,8 @@ func (p *Program) genOnce(fn *ssa.Function, key string, opts GenOpts, pre map[st
 		name = "locks:" + key
 	}
 	vc = NewVC(p, mode, name)
+	vc.models = p.cs.PkgModels[pkgOfKey(key)]
+	vc.unitPkg = pkgOfKey(key)
 	vc.noQuant = opts.LockOnly
 	// pre-populate heap keys (so that havoc points know every key)
 	var ks []string
@@ -175,6 +177,7 @@ func (p *Program) genOnce(fn *ssa.Function, key string, opts GenOpts, pre map[st
 			pkgs[u] = true
 		}
 		vc.sliceUF = strings.TrimSpace(fc.Opts["sliceidx"]) == "uf"
+		_, vc.absRem = fc.Opts["absrem"]
 		if w := strings.Fields(strings.ReplaceAll(fc.Opts["with"], ",", " ")); len(w) > 0 {
 			vc.with = map[string]bool{}
 			for _, n := range w {
@@ -309,6 +312,41 @@ func (p *Program) genOnce(fn *ssa.Function, key string, opts GenOpts, pre map[st
 			pvars[n] = v
 		}
 		bindResults(pvars, rnames, res.results)
+		if _, split := fc.Opts["splitreturns"]; split && len(fr.returns) > 1 {
+			// `splitreturns`: the ghost updates and the postconditions are evaluated once per return statement, on the
+			// state of that return (no merged state, hence no if-then-else over heap arrays in the goals)
+			// the returns in source order (`set@K` names the K-th return statement of the function text)
+			rets := append([]retRec(nil), fr.returns...)
+			sort.SliceStable(rets, func(a, b int) bool { return rets[a].pos < rets[b].pos })
+			for ri, r := range rets {
+				rst := r.st.Clone()
+				rvars := map[string]Val{}
+				for n, v := range fr.params {
+					rvars[n] = v
+				}
+				bindResults(rvars, rnames, r.results)
+				renv := &Env{vc: vc, st: rst, old: entry, vars: rvars, pkg: pkg, heads: map[int]*State{}}
+				for _, gu := range fc.Ghost {
+					if gu.Ret != 0 && gu.Ret != ri+1 {
+						continue
+					}
+					if err := fr.ghostAssign(rst, renv, gu); err != nil {
+						p.specErrors = append(p.specErrors, fmt.Sprintf("%s:%d: ghost update %s: %v", fc.File, fc.Line, gu.Target.String(), err))
+					}
+				}
+				for _, c := range clausesFor(fc.Ensures, "") {
+					for _, part := range splitConj(c.E) {
+						t, e := renv.EvalBool(part)
+						if e != nil {
+							fr.specError(c, e)
+							continue
+						}
+						vc.oblige("post", key, "post", r.cond, t, fr.pos(fn.Pos()), part.String())
+					}
+				}
+			}
+			return vc, fr, nil
+		}
 		penv := &Env{vc: vc, st: res.st, old: entry, vars: pvars, pkg: pkg, heads: map[int]*State{}}
 		for _, li := range fr.loops {
 			if li.headSt != nil {
